@@ -89,7 +89,7 @@ func cmdFunc(args []string) {
 		os.Exit(2)
 	}
 	for _, key := range fs.Args() {
-		x, rep, err := prog.Explore(key, &VerifyOpts{PanicProps: []string{"C13"}})
+		x, rep, err := prog.Explore(key, &VerifyOpts{PanicProps: []string{"C13"}, SQLProps: []string{"SQL"}, TxProps: []string{"TX"}})
 		if err != nil {
 			fmt.Println("ERROR", key, err)
 			continue
